@@ -52,9 +52,11 @@ def gen_Lineno(repo: pathlib.Path) -> str:
     init = extract._func(cls, "__init__")
     errm = extract._func(cls, "error_message")
 
-    # the newline: the one-character string constant a loop variable is compared with
+    # the newline: the one-character string constant a loop variable is compared with — in __init__ itself or in a
+    # module-level helper / a method of the class which __init__ calls (transitively)
     newlines = set()
-    for loop in ast.walk(init):
+    loops = [n for scope in extract._reachable_functions(mod, init, cls) for n in ast.walk(scope)]
+    for loop in loops:
         if not isinstance(loop, ast.For) or not isinstance(loop.target, ast.Name):
             continue
         for node in ast.walk(loop):
